@@ -222,6 +222,33 @@ def _stored_bool_edges(body, s):
     return out
 
 
+def _stored_enum_edges(body, s):
+    """switch on a stored decision (`match self.source()? { Kind::A => .. }`, a private enum): {label: blocks that construct the variant(s)
+    this edge stands for}"""
+    from . import guards
+    t = body.blocks[s]["term"]
+    src = paths.switch_source(body, t)
+    if src is None or src[0] != "discr" or not guards._is_plain_enum(src[1]["enum"]):
+        return {}
+    subj = flow.resolve_place(body, src[1]["ops"][0])
+    if subj is None:
+        return {}
+    wrap = guards._wrapper_depth(subj[1])
+    if wrap is None:
+        return {}
+    vals = paths.discr_values(t, src[1])
+    out = {}
+    for lab, _ in body.succ_edges(s):
+        v = vals.get(lab)
+        if v is None:
+            continue
+        names = set(v[6:].split("|")) if v.startswith("OTHER:") else {v}
+        sites = guards._enum_def_sites(body, subj[0], names, wrap, src[1]["enum"])
+        if sites:
+            out[lab] = sites
+    return out
+
+
 def definitely_good(body, key, at_block, entry=False):
     """True when P is Some/Ok on every path reaching the terminator of at_block (entry: the state assumed on entering the body)"""
     order = [b for b in _rpo(body) if not body.blocks[b]["cleanup"]]
@@ -232,6 +259,8 @@ def definitely_good(body, key, at_block, entry=False):
         t = body.blocks[bi]["term"]
         static_edges[bi] = _edge_sets(body, bi, key) if t["k"] == "switch" else set()
         stored[bi] = _stored_bool_edges(body, bi) if t["k"] == "switch" and not static_edges[bi] else {}
+        if t["k"] == "switch" and not static_edges[bi] and not stored[bi]:
+            stored[bi] = _stored_enum_edges(body, bi)
 
     def transfer(bi, cur, upto_term=True):
         for st in body.blocks[bi]["stmts"]:
